@@ -246,25 +246,50 @@ impl Cfg {
             1 => SanitizerConfig::strict(),
             _ => SanitizerConfig::compat(),
         };
+        // Every builder method overwrites its field: before each real call the same method is
+        // called with a decoy list (names that occur in generated documents, the opposite
+        // `ListBehavior`), which must leave no trace.
+        let decoy_names: Names = vec!["b".into(), "x-foo".into(), "span".into(), "a".into()];
+        let decoy_perel: PerEl = vec![
+            ("a".into(), vec!["href".into(), "class".into(), "language-*".into(), "x".into()]),
+            ("code".into(), vec!["class".into(), "x".into(), "*".into()]),
+            ("span".into(), vec!["style".into(), "data-mx-color".into()]),
+        ];
+        let decoy_schemes: Schemes = vec![
+            ("a".into(), vec![("href".into(), vec!["javascript".into(), "https".into(), "x-fresh".into()])]),
+            ("img".into(), vec![("src".into(), vec!["http".into(), "mxc".into()])]),
+        ];
         if let Some((b, p)) = &self.replace_elements {
+            c = c.replace_elements(
+                [NameReplacement { old: "b", new: "i" }, NameReplacement { old: "span", new: "x-foo" }],
+                lb(!*b),
+            );
             c = c.replace_elements(
                 p.iter().map(|(o, n)| NameReplacement { old: leak(o), new: leak(n) }),
                 lb(*b),
             );
         }
         if let Some(n) = &self.remove_elements {
+            c = c.remove_elements(leaks(&decoy_names));
             c = c.remove_elements(leaks(n));
         }
         if self.rrf {
             c = c.remove_reply_fallback();
         }
         if let Some(n) = &self.ignore_elements {
+            c = c.ignore_elements(leaks(&decoy_names));
             c = c.ignore_elements(leaks(n));
         }
         if let Some((b, n)) = &self.allow_elements {
+            c = c.allow_elements(leaks(&decoy_names), lb(!*b));
             c = c.allow_elements(leaks(n), lb(*b));
         }
         if let Some((b, p)) = &self.replace_attrs {
+            let decoy = [NameReplacement { old: "href", new: "src" }, NameReplacement { old: "class", new: "id" }];
+            c = c.replace_attributes(
+                [ElementAttributesReplacement { element: "a", replacements: &decoy }],
+                lb(!*b),
+            );
             let store: Vec<(&'static str, Vec<NameReplacement>)> = p
                 .iter()
                 .map(|(e, m)| {
@@ -280,22 +305,31 @@ impl Cfg {
             );
         }
         if let Some(p) = &self.remove_attrs {
+            c = with_props(&decoy_perel, |v| c.remove_attributes(v));
             c = with_props(p, |v| c.remove_attributes(v));
         }
         if let Some((b, p)) = &self.allow_attrs {
+            c = with_props(&decoy_perel, |v| c.allow_attributes(v, lb(!*b)));
             c = with_props(p, |v| c.allow_attributes(v, lb(*b)));
         }
         if let Some(p) = &self.deny_schemes {
+            c = with_schemes(&decoy_schemes, |v| c.deny_schemes(v));
             c = with_schemes(p, |v| c.deny_schemes(v));
         }
         if let Some((b, p)) = &self.allow_schemes {
+            c = with_schemes(&decoy_schemes, |v| c.allow_schemes(v, lb(!*b)));
             c = with_schemes(p, |v| c.allow_schemes(v, lb(*b)));
         }
         if let Some(p) = &self.remove_classes {
+            c = with_props(&decoy_perel, |v| c.remove_classes(v));
             c = with_props(p, |v| c.remove_classes(v));
         }
         if let Some((b, p)) = &self.allow_classes {
+            c = with_props(&decoy_perel, |v| c.allow_classes(v, lb(!*b)));
             c = with_props(p, |v| c.allow_classes(v, lb(*b)));
+        }
+        if self.max_depth.is_some() {
+            c = c.max_depth(7);
         }
         if let Some(d) = self.max_depth {
             c = c.max_depth(d);
